@@ -108,7 +108,8 @@ def _eval(case):
         eol = case['eol']
         pre = ''.join(h + eol for h in header)
         spec = {'banner': line, 'eol': eol, 'pre': pre}
-        clean = sanitize(line)
+        seen = line.encode('latin-1').decode('utf-8', 'replace')
+        clean = sanitize(seen)
         want = ref_parts(clean)
         for js in (False, True):
             net = fakenet.FakeNet(segment=case.get('segment', 0))
@@ -148,9 +149,9 @@ def _eval(case):
                 want_hdr = [h.rstrip().encode('latin-1').decode('utf-8', 'replace') for h in header if h.strip()]
                 if hdr_shown != want_hdr:
                     fails.append(['cli-header-lines' + tag, 'shown %r, sent %r' % (hdr_shown, want_hdr)])
-                if clean != line and not any('non-printable' in x for x in tr.gen.get('banner contains non-printable ASCII', []) + [l for l in lines if 'non-printable' in l]):
+                if clean != seen and not any('non-printable' in x for x in tr.gen.get('banner contains non-printable ASCII', []) + [l for l in lines if 'non-printable' in l]):
                     fails.append(['cli-non-conforming-flag' + tag, repr(line)])
-        nt = bool(header) or want[2] is not None or clean != line or bool(case.get('segment'))
+        nt = bool(header) or want[2] is not None or clean != seen or bool(case.get('segment'))
         return mkres(case, nt=nt, classes=['cli', 'headers:%d' % min(len(header), 4), 'segment:%s' % case.get('segment', 0), 'eol:' + repr(eol)], fails=fails)
     raise ValueError(k)
 
@@ -158,11 +159,14 @@ def _eval(case):
 # ------------------------------------------------------------------------------- generators
 
 def software_st():
-    return st.text(alphabet=PRINTABLE_NOSPACE, min_size=0, max_size=30).filter(lambda s: not re.match(r'^SSH-\d\.', s) and not re.match(r'^\d*\s*-?SSH-\d', s))
+    plain = st.text(alphabet=PRINTABLE_NOSPACE, min_size=0, max_size=30)
+    # protocol-like text *inside* a token is ordinary text (only a token that starts with it is the multi-version form)
+    inner = st.tuples(st.text(alphabet='abcdefghijklmnopqrstuvwxyz_(', min_size=1, max_size=6), st.sampled_from(['SSH-1.5', 'SSH-1.3', 'SSH-0.1', 'SSH-3.0']), st.text(alphabet=')_xyz0123456789', max_size=4)).map(lambda t: t[0] + t[1] + t[2])
+    return st.one_of(plain, plain, plain, inner).filter(lambda s: not re.match(r'^SSH-\d\.', s) and not re.match(r'^\d*\s*-?SSH-\d', s))
 
 
 def comments_st():
-    word = st.text(alphabet=PRINTABLE_NOSPACE, min_size=1, max_size=10)
+    word = st.one_of(st.text(alphabet=PRINTABLE_NOSPACE, min_size=1, max_size=10), st.text(alphabet=PRINTABLE_NOSPACE, min_size=1, max_size=10), st.sampled_from(['SSH-1.5', '(SSH-1.3)', 'SSH-1.99-compatible', 'was:SSH-0.9', 'SSH-9.9']))
     return st.lists(st.tuples(word, st.sampled_from([' ', ' ', '  ', '    '])), min_size=1, max_size=4).map(lambda l: ''.join(w + s for w, s in l).rstrip(' ') + '')
 
 
@@ -181,11 +185,13 @@ def line_st(dirty=True):
             # inject into the software or comments part only (the protocol part is matched literally)
             base = len('SSH-%s-' % proto)
             p = base + pos % (len(line) - base + 1)
+            if pos % 4 == 0:
+                p = len(line)                  # often at the very end of the line
             line = line[:p] + ch + line[p:]
         if line.endswith('\t'):               # trailing blanks belong to the line terminator, which the reader trims
             line = line[:-1]
         return line
-    inj = st.one_of(st.none(), st.none(), st.tuples(st.integers(0, 60), st.sampled_from(['\x00', '\x01', '\x07', '\x1b', '\x7f', '\x80', '\xe9', '\xff', '\t'])))
+    inj = st.one_of(st.none(), st.none(), st.tuples(st.integers(0, 60), st.sampled_from(['\x00', '\x01', '\x07', '\x1b', '\x7f', '\x80', '\xe9', '\xff', '\t', '\x1c', '\x1f', '\xc2\x85', '\xc2\xa0', '\xe2\x80\xa8', '\xc3\xa9'])))
     return st.tuples(proto_st(), software_st(), st.one_of(st.none(), comments_st()), inj).map(build)
 
 
